@@ -98,7 +98,7 @@ def provisional_sources(repo):
                     first_set = min(x.lineno for x in sets)
                     bypass = [c for c in ast.walk(fi.node) if isinstance(c, ast.Call) and st.lineno < c.lineno < first_set
                               and not any(c is y for y in ast.walk(st.test))
-                              and unparse(c.func) not in ('isinstance', 'type', 'len', 'hasattr', 'getattr')]
+                              and unparse(c.func) not in ('isinstance', 'type', 'len', 'hasattr', 'getattr', 'frozenset', 'tuple', 'list', 'set', 'id')]
                     out.append({'fi': fi, 'marker': mk, 'sentinel': unparse(st.body[0].value) if st.body[0].value else 'None',
                                 'reset_safe': safe, 'resets': resets, 'sets': sets, 'bypass': bypass})
     return out
